@@ -110,14 +110,88 @@ func solveAll(prelude string, obls []*Obligation, opt solveOpts) {
 	solvePool(obls, opt)
 }
 
+// solveBatches: the ensures clauses of one return point are first tried as one conjunction (one query instead
+// of one per clause); only when that is not discharged quickly is each clause decided on its own.
+func solveBatches(obls []*Obligation, opt solveOpts) {
+	type key struct {
+		fn string
+		b  int
+	}
+	groups := map[key][]*Obligation{}
+	var order []key
+	for _, o := range obls {
+		if o.Batch == 0 || o.Cover || o.Result != "" {
+			continue
+		}
+		k := key{o.Fn, o.Batch}
+		if _, ok := groups[k]; !ok {
+			order = append(order, k)
+		}
+		groups[k] = append(groups[k], o)
+	}
+	ch := make(chan []*Obligation)
+	var wg sync.WaitGroup
+	n := opt.jobs
+	if n <= 0 {
+		n = 16
+	}
+	for w := 0; w < n; w++ {
+		wg.Add(1)
+		go func() {
+			defer wg.Done()
+			for g := range ch {
+				comb := &Obligation{Fn: g[0].Fn, Label: "batch", Prelude: g[0].Prelude}
+				seen := map[string]bool{}
+				var goals []string
+				for _, o := range g {
+					if len(o.Defs) > len(comb.Defs) {
+						comb.Defs = o.Defs
+					}
+					for _, p := range o.PC {
+						if !seen[p] {
+							seen[p] = true
+							comb.PC = append(comb.PC, p)
+						}
+					}
+					goals = append(goals, o.Goal)
+				}
+				comb.Goal = "(and " + strings.Join(goals, " ") + ")"
+				to := 4
+				if opt.timeoutS < to {
+					to = opt.timeoutS
+				}
+				t0 := time.Now()
+				r, out, _ := runSolver(solvers[0], queryText(*comb.Prelude, comb, false), to, opt.seed)
+				if r == "unsat" {
+					secs := time.Since(t0).Seconds() / float64(len(g))
+					for _, o := range g {
+						o.Result, o.Output, o.Seconds, o.Backend = "unsat", out, secs, solvers[0].name
+					}
+				}
+			}
+		}()
+	}
+	for _, k := range order {
+		if len(groups[k]) >= 3 {
+			ch <- groups[k]
+		}
+	}
+	close(ch)
+	wg.Wait()
+}
+
 func solvePool(obls []*Obligation, opt solveOpts) {
 	type job struct {
 		text string
 		obls []*Obligation
 	}
+	solveBatches(obls, opt)
 	byHash := map[[32]byte]*job{}
 	var jobs []*job
 	for _, o := range obls {
+		if o.Result == "unsat" && o.Batch != 0 {
+			continue // discharged as part of its batch
+		}
 		if o.Goal == "true" && !o.Cover {
 			o.Result, o.Backend = "unsat", "trivial"
 			continue
